@@ -48,6 +48,50 @@ Theorem parser_reports_lexer_positions :
   (2 <=? length cur_assign_sites)%nat = true.
 Proof. vm_compute. repeat split; reflexivity. Qed.
 
+(* ---- type assertions without comma-ok behind ParseProgram ------------------------------------
+   A failing x.(T) is a runtime.Error; neither compiler.Compile's nor ParseProgram's recover
+   converts it, so it would escape ParseProgram as a panic.  Every such assertion in internal/ast,
+   internal/compiler, internal/resolver and parser (table unchecked_asserts, regenerated on every
+   check) must fall into one of three classes:
+     CRepanic        the assertion on the recovered value inside a deferred recover(): foreign
+                     panics are re-raised on purpose;
+     CParserBuilds   split()'s second argument: the parser builds it as &ast.VarExpr{...}
+                     (table split_args_init);
+     CResolverGuard  the compiler's assertion that arg is an ast.VarExpr under `if f.Arrays[i]` for a user call:
+                     the resolver has checked THE SAME expression (the un-reassigned range
+                     variable over n.Args, table array_arg_checks) with a comma-ok assertion and
+                     rejects a non-variable in an array slot ("can't pass scalar ... as array
+                     param"); that the slot types f.Arrays are the resolver's final, consistent
+                     typing is property C16 (theorem C16_sound).
+   A new unchecked assertion, or a change of one of the protecting facts, breaks the theorem. *)
+Inductive aclass : Type := CRepanic | CParserBuilds | CResolverGuard (thm : string).
+
+Definition classify (s : assert_site) : option aclass :=
+  if a_in_recover s && String.eqb (a_expr s) "r" then Some CRepanic
+  else if String.eqb (a_typ s) "*ast.VarExpr" && String.eqb (a_case s) "lexer.F_SPLIT" &&
+          (String.eqb (a_expr s) "e.Args[1]" || String.eqb (a_expr s) "n.Args[1]") then Some CParserBuilds
+  else if String.eqb (a_file s) "internal/compiler/compiler.go" && String.eqb (a_typ s) "*ast.VarExpr" &&
+          String.eqb (a_case s) "*ast.UserCallExpr" && String.eqb (a_guard s) "f.Arrays[i]" &&
+          String.eqb (a_expr s) "arg" && (a_assigns s =? 0)%nat then Some (CResolverGuard "C16_sound")
+  else None.
+
+Definition check_ok (k : arg_check) : bool :=
+  String.eqb (k_range_over k) "n.Args" && k_has_check k && (k_reassigned k =? 0)%nat && k_rejects k.
+
+Definition class_ok (c : aclass) : bool :=
+  match c with
+  | CRepanic => true
+  | CParserBuilds => String.eqb (nth 1 split_args_init "") "lit:ast.VarExpr"
+  | CResolverGuard thm => String.eqb thm "C16_sound" && negb (length array_arg_checks =? 0)%nat && forallb check_ok array_arg_checks
+  end.
+
+Definition assert_ok (s : assert_site) : bool :=
+  match classify s with Some c => class_ok c | None => false end.
+
+Theorem unchecked_assertions_classified :
+  forallb assert_ok unchecked_asserts = true /\ (2 <=? length unchecked_asserts)%nat = true.
+Proof. vm_compute. split; reflexivity. Qed.
+
 (* ---- token.go ------------------------------------------------------------------------------ *)
 Definition lit (s : string) : bytes :=
   List.map (fun a => Z.of_N (N_of_ascii a)) (list_ascii_of_string s).
